@@ -2,8 +2,9 @@
 """import_seed.py Cxx i : copy /tmp/wt/Cxx/out/{mutation,demo,meta}<i> into /verif/seeded/Cxx-<i>/"""
 import json, os, shutil, sys
 p, i = sys.argv[1], sys.argv[2]
+offset = int(sys.argv[3]) if len(sys.argv) > 3 else 0
 src = f"/tmp/wt/{p}/out"
-dst = f"/verif/seeded/{p}-{i}"
+dst = f"/verif/seeded/{p}-{int(i) + offset}"
 os.makedirs(dst, exist_ok=True)
 shutil.copyfile(f"{src}/mutation{i}.diff", f"{dst}/patch.diff")
 for ext in ("rs", "py"):
